@@ -578,7 +578,8 @@ class Message:
             if not header:
                 raise EOFError("empty read")
         except EOFError as e:
-            raise EOFError("couldn't load message header, " + e.args[0]) from None
+            # not every IO gives its EOFError a message (SocketIO does not)
+            raise EOFError(f"couldn't load message header, {e}") from None
         msgtype, channel, payload = struct.unpack("!bii", header)
         return Message(msgtype, channel, io.read(payload))
 
